@@ -5,6 +5,16 @@ here = os.path.dirname(os.path.dirname(os.path.abspath(__file__)))
 
 # id -> (technique, level text, level note, design ref)
 CHECKS = {
+    "C16": (
+        "exhaustive enumeration of small interval multisets x criteria sets + Hypothesis random lists and databases; greedy reference, independent union sweep, identity-based partition check",
+        "Every start-ordered multiset of <= 3 (quick) / <= 4 (thorough) intervals over 8 positions is merged under 9 criteria sets and compared with "
+        "a greedy reference that has its own implementation of each shipped criterion, and (default criteria) with an independent sweep of maximal "
+        "overlapping-or-adjacent runs; outputs must partition the input objects, span min..max of their children, carry fresh ids, leave inputs and "
+        "database untouched, and re-merging the same objects (same or other criteria, or the outputs) must agree again. merge_all and children_bp "
+        "are compared on generated databases.",
+        "Criteria reflexive; exhaustive only for the stated scope.",
+        "DESIGN.md section 4 C16",
+    ),
     "C15": (
         "Hypothesis-generated ordered feature lists and gene/transcript/exon databases against a reference gap loop",
         "interfeatures() must yield exactly the reference sequence of gaps (seqid, start, end, featuretype, strand, attribute map incl. numeric "
